@@ -397,9 +397,16 @@ impl Driver {
         }
         if self.filter_log.is_some() {
             // the effects become visible with the version the compaction installed
+            // ... and never to a snapshot that was opened while the compaction was still running
+            let mid_max = self
+                .filter_log
+                .as_ref()
+                .and_then(|l| l.mid_snaps.lock().unwrap().iter().copied().max())
+                .unwrap_or(0);
             let c = lsm_tree::verif_hooks::history(self.inner())
                 .last()
-                .map_or(before.seqno, |sv| sv.seqno.max(before.seqno));
+                .map_or(before.seqno, |sv| sv.seqno.max(before.seqno))
+                .max(mid_max);
             self.absorb_filter_log(log_before, c, &mut info);
             // writes the in-filter client made while the compaction was running
             let mws: Vec<(Vec<u8>, Vec<u8>, u64)> = self
